@@ -315,6 +315,26 @@ func zzWellFormed(tag string, r *Replica) {
 		zzAssert(okData, tag+".chain-member-without-data-file")
 		zzAssert(okMeta, tag+".chain-member-without-meta-file")
 	}
+	// the three in-memory structures agree with each other and with the directory: every
+	// disk the replica knows has its files, and the children map is exactly the inverse of
+	// the parent links
+	for name, dd := range r.diskData {
+		_, okData := zzfs.Cur.Entries[name]
+		_, okMeta := zzfs.Cur.Entries[name+metadataSuffix]
+		zzAssert(okData && okMeta, tag+".known-disk-without-files")
+		if dd != nil && dd.Parent != "" {
+			zzAssert(r.diskChildrenMap[dd.Parent][name], tag+".children-map-misses-parent-link")
+		}
+	}
+	for p, kids := range r.diskChildrenMap {
+		if r.diskData[p] == nil {
+			continue // an entry for a disk that is gone is not observable (ListDisks walks diskData)
+		}
+		for c := range kids {
+			dd := r.diskData[c]
+			zzAssert(dd != nil && dd.Parent == p, tag+".children-map-has-phantom-child")
+		}
+	}
 }
 
 // zzReopenCheck: a new process opens the directory: it must succeed and see want.
